@@ -103,6 +103,16 @@ CHECKS = {
         'Sweeping proposes the iter_dna sequence and stops. Exploration with an exhaustive finite sub-domain.',
         'Float/custom points: sampler/validator half only; spaces bounded to <=400 members (quick exhaustive: <=36); bool indices not used as corruptions (True == 1).',
         'DESIGN.md section 3 C11'),
+    'C12': (
+        'round-trip + metamorphic PBT over generated specs, DNAs and chains of DNA-producing operations',
+        'Generated DNASpec shapes (names, distinct literal values, floats, conditional nesting), a valid DNA (enumerated member or '
+        'random_dna) and a chain of library operations that produce DNAs from DNAs (next_dna, random_dna(previous_dna), clone, JSON, '
+        'from_numbers, from_dict, mutators Uniform/Swap, recombinators Uniform/Sample/KPoint/Segmented/PMX/Order/Cycle/Average). '
+        'For each DNA: flat numbers, nested numbers, to_dict under key x value x multi-choice x inactive styles and compact/verbose JSON '
+        'rebuild an equal DNA; lookups by decision point, id and name return the decision of an independent reference walk of '
+        '(shape, numbers); every exported view equals that of a DNA rebuilt from the flat numbers (alignment). Exploration.',
+        'Literal values distinct; custom decision points not generated; full view product on the first and last DNA of a chain, a 20-view subset in between.',
+        'DESIGN.md section 3 C12'),
 }
 
 NOT_BUILT = 'check not built yet in this round (planned; see DESIGN.md section 3)'
